@@ -70,6 +70,13 @@ def handle : List String → String
     | some off, some lim, some keys =>
       "ok " ++ showNatList ((withTies (fun (x : Int × Nat) => x.1) off lim (keys.zipIdx)).map (·.2))
     | _, _, _ => "bad-op"
+  | ["tiescount", o, l, t, ks] =>
+    -- number of rows of FETCH FIRST l ROWS {ONLY | WITH TIES} after OFFSET o over sorted keys
+    match o.toNat?, l.toNat?, parseIntList? ks with
+    | some off, some lim, some keys =>
+      if t == "1" then "ok " ++ toString ((withTies (fun (x : Int × Nat) => x.1) off lim (keys.zipIdx)).length)
+      else "ok " ++ toString ((slice off (some lim) keys).length)
+    | _, _, _ => "bad-op"
   | ["percent", n, p] =>
     match n.toNat?, p.toNat? with
     | some a, some b => "ok " ++ toString (percentCount a b)
